@@ -436,7 +436,8 @@ def table(pid, tier):
     elif pid == "C06":
         insts = [burst(tier, "oldest", 1), burst(tier, "latest", 1), deep_queue("oldest")] + \
             ([] if q else [burst(tier, "oldest", 2), burst(tier, "latest", 2), deep_queue("latest")])
-        inv = ["C06_NeverBlocks", "C06_Conservation", "C06_ErrIffDropped", "C06_Exact", "C05_Bound", "C02_Order"]
+        inv = ["C06_NeverBlocks", "C06_Conservation", "C06_ErrIffDropped", "C06_Exact", "C06_RetryFindsRoom", "C05_Bound",
+               "C02_Order"]
         T = dict(mc=[(i, inv, []) for i in insts], gen=[(i, 700 if q else 10000) for i in insts[:3]],
                  free=[(i, 60 if q else 500) for i in insts])
     elif pid == "C07":
